@@ -163,8 +163,11 @@ let rec pr_tree (t : wtree) =
   List.iter pr_tree ch;
   pr "]"
 
+(* a line cell (content 200 + segment bits 1..15) is shown as one of 15 punctuation characters *)
+let line_chars = "!\"#$%&'()*+,-{}"
 let cell_char cp =
-  if cp = 32 then '.' else if cp = 35 || cp >= 128 then '#' else if cp < 33 || cp > 126 then '~' else Char.chr cp
+  if cp = 32 then '.' else if cp > 200 && cp <= 215 then line_chars.[cp - 201]
+  else if cp < 33 || cp > 126 then '~' else Char.chr cp
 
 let pr_grid (tm : term) =
   let nl = iz tm.t_lines and nc = iz tm.t_cols in
@@ -255,7 +258,8 @@ let parse_grid (s : string) =
   let nl = Array.length rows in
   let nc = if nl = 0 then 0 else String.length rows.(0) in
   Array.iter (fun r -> if String.length r <> nc then failwith "ragged grid") rows;
-  let code ch = if ch = '.' then 32 else if ch = '#' then 35 else Char.code ch in
+  let code ch = if ch = '.' then 32 else
+      match String.index_opt line_chars ch with Some k -> 201 + k | None -> Char.code ch in
   (nl, nc, fun ((l, c) : z * z) ->
       let l = iz l and c = iz c in
       if l >= 0 && l < nl && c >= 0 && c < nc then zi (code rows.(l).[c]) else zi (-1))
